@@ -33,8 +33,8 @@ ASSUMPTIONS = ["the stub reproduces PROPKA 3.5.1's row schema (res_num, ins_code
                "for the titrated state at that chain position",
                "a warning for a kept default = a record at WARNING or above emitted during the titration stage that "
                "mentions the residue number"]
-MIN = {"quick": {"groups_checked": 1500, "sweeps": 20, "propka_sweeps": 2, "propka_rows_judged": 100, "neutral_terminus_cells": 14, "icode_cells": 20, "cells_with_ffout": 80},
-       "thorough": {"groups_checked": 40000, "sweeps": 600, "propka_sweeps": 30, "propka_rows_judged": 3000, "neutral_terminus_cells": 800, "icode_cells": 1200, "cells_with_ffout": 6000}}
+MIN = {"quick": {"groups_checked": 1500, "sweeps": 20, "propka_sweeps": 2, "propka_rows_judged": 100, "neutral_terminus_cells": 14, "icode_cells": 20, "cells_with_ffout": 80, "api_terminal_cells": 100},
+       "thorough": {"groups_checked": 40000, "sweeps": 600, "propka_sweeps": 30, "propka_rows_judged": 3000, "neutral_terminus_cells": 800, "icode_cells": 1200, "cells_with_ffout": 6000, "api_terminal_cells": 4000}}
 CELLS_REQUIRED = 276
 from ..mon.pkastub import GROUPS, STUB, TITR, install, label, make_table  # noqa: E402,F401
 
